@@ -20,6 +20,10 @@ mod replay_entry {
     #[test]
     fn verif_replay_entry() {
         let name = std::env::var("VERIF_HARNESS").expect("VERIF_HARNESS");
+        if std::env::var("VERIF_SEARCH").is_ok() {
+            if !crate::ingest::search(&name) { panic!("no search mode for {name}"); }
+            return;
+        }
         let script = std::fs::read_to_string(std::env::var("VERIF_SCRIPT").expect("VERIF_SCRIPT")).unwrap();
         crate::sym::script::load(crate::sym::script::parse(&script));
         match name.as_str() {
